@@ -58,7 +58,7 @@ DECOY = [(1000, (0, 0, 8, 8)), (1001, (1, 1, 1, 1)), (1002, (-5, -5, -4, -4)), (
 DECOY_QUERIES = [(-9, -9, 9, 9), (1, 1, 1, 1), (-5, -5, -5, -5)]
 
 
-def check_collection(boxes, queries):
+def check_collection(boxes, queries, sequence=None):
     """boxes: list of (id, box).  Returns ([(clause, msg, query)], depth)."""
     rtree = _lib()
     desc = f"Index({boxes!r})"
@@ -71,22 +71,30 @@ def check_collection(boxes, queries):
     except RecursionError:
         return [("loop", f"{desc}: construction recursed without bound", None)], 0
     except Exception as exc:                # pylint: disable=broad-except
-        return [("raise", f"{desc} raised {type(exc).__name__}: {exc}", None)], 0
+        return [("raise", f"{desc} raised {type(exc).__name__}: {exc}", None, None)], 0
     depth = depth_of(index)
     out = []
     if depth > 64:
-        out.append(("depth", f"{desc}: tree deeper than 64 levels", None))
-    for query in queries:
+        out.append(("depth", f"{desc}: tree deeper than 64 levels", None, None))
+    # one index answers many queries: the whole list, then the list again backwards, so every
+    # query is also asked after every other one (a result set handed out by reference, a
+    # memo keyed too coarsely).  A failing case records the queries asked before it.
+    asked = []
+    for query in (list(queries) + list(queries)[::-1] if sequence is None else sequence):
+        asked.append(query)
+        again = f" [query #{len(asked)} asked of this index object]"
         try:
             got = index.intersection(query)
         except Exception as exc:            # pylint: disable=broad-except
-            out.append(("raise", f"{desc}.intersection({query}) raised {exc!r}", query))
+            out.append(("raise", f"{desc}.intersection({query}) raised {exc!r}{again}", query,
+                        list(asked)))
             continue
         want = brute(boxes, query)
         if got != want or not isinstance(got, set):
             missed, extra = sorted(want - set(got)), sorted(set(got) - want)
             out.append(("result", f"{desc}.intersection({query}) = {sorted(got)}; brute force "
-                        f"gives {sorted(want)} (missed {missed}, extra {extra})", query))
+                        f"gives {sorted(want)} (missed {missed}, extra {extra}){again}", query,
+                        list(asked)))
             if len(out) > 3:
                 break
     for query in DECOY_QUERIES:
@@ -94,12 +102,12 @@ def check_collection(boxes, queries):
             got = decoy.intersection(query)
         except Exception as exc:            # pylint: disable=broad-except
             out.append(("isolation", f"after building {desc}, an index built earlier raised "
-                        f"{exc!r} for query {query}", None))
+                        f"{exc!r} for query {query}", None, None))
             break
         if got != brute(DECOY, query):
             out.append(("isolation", f"after building {desc}, the earlier Index({DECOY!r})"
                         f".intersection({query}) = {sorted(got)}; brute force gives "
-                        f"{sorted(brute(DECOY, query))}", None))
+                        f"{sorted(brute(DECOY, query))}", None, None))
             break
     return out, depth
 
@@ -114,14 +122,15 @@ def _multiset_chunk(args):
             boxes = [(k, all_boxes[b]) for k, b in enumerate(combo)]
             bad, depth = check_collection(boxes, queries)
             part.count("collections")
-            part.count("queries", len(queries))
+            part.count("queries", 2 * len(queries))
             if depth:
                 part.count("nontrivial")            # the collection actually produced subtrees
             part.counters["max_depth"] = max(part.counters.get("max_depth", 0), depth)
-            for clause, msg, query in bad:
+            for clause, msg, query, asked in bad:
                 part.violation(f"{clause}:{boxes}:{query}", msg,
                                {"kind": "boxes", "boxes": [[i, list(b)] for i, b in boxes],
-                                "query": list(query) if query else None})
+                                "query": list(query) if query else None,
+                            "asked": [list(q) for q in asked] if asked else None})
     return part
 
 
@@ -160,15 +169,16 @@ def _multiscale_chunk(collections):
         bad, depth = check_collection(boxes, queries)
         part.count("collections")
         part.count("multiscale_collections")
-        part.count("queries", len(queries))
+        part.count("queries", 2 * len(queries))
         part.count("nontrivial")
         part.counters["max_depth"] = max(part.counters.get("max_depth", 0), depth)
-        for clause, msg, query in bad:
+        for clause, msg, query, asked in bad:
             part.violation(f"{clause}:multiscale:{len(boxes)}:{core.digest(boxes)}:{query}",
                            msg.replace(repr(boxes), f"<{len(boxes)} boxes on geometric scales, "
                                                     f"first {boxes[0]}, last {boxes[-1]}>")[:700],
                            {"kind": "boxes", "boxes": [[i, list(b)] for i, b in boxes],
-                            "query": list(query) if query else None})
+                            "query": list(query) if query else None,
+                            "asked": [list(q) for q in asked] if asked else None})
     return part
 
 
@@ -178,14 +188,15 @@ def _subset_chunk(masks):
         boxes = [(k, box) for k, box in enumerate(ARRANGEMENT) if mask >> k & 1]
         bad, depth = check_collection(boxes, ARR_QUERIES)
         part.count("collections")
-        part.count("queries", len(ARR_QUERIES))
+        part.count("queries", 2 * len(ARR_QUERIES))
         if depth:
             part.count("nontrivial")
         part.counters["max_depth"] = max(part.counters.get("max_depth", 0), depth)
-        for clause, msg, query in bad:
+        for clause, msg, query, asked in bad:
             part.violation(f"{clause}:{boxes}:{query}", msg,
                            {"kind": "boxes", "boxes": [[i, list(b)] for i, b in boxes],
-                            "query": list(query) if query else None})
+                            "query": list(query) if query else None,
+                            "asked": [list(q) for q in asked] if asked else None})
     if masks:
         mask = masks[len(masks) // 2]
         part.sample({"boxes": [list(b) for k, b in enumerate(ARRANGEMENT) if mask >> k & 1],
@@ -227,9 +238,10 @@ def run(ctx):
     # the empty collection
     bad, _depth = check_collection([], q_small)
     part.count("collections")
-    for clause, msg, query in bad:
+    for clause, msg, query, asked in bad:
         part.violation(f"{clause}:empty:{query}", msg, {"kind": "boxes", "boxes": [],
-                                                        "query": list(query) if query else None})
+                                                        "query": list(query) if query else None,
+                            "asked": [list(q) for q in asked] if asked else None})
     cnt = part.counters
     coverage = {
         "states": cnt.get("collections", 0),
@@ -258,5 +270,6 @@ def run(ctx):
 def replay(case):
     boxes = [(i, tuple(b)) for i, b in case["boxes"]]
     queries = [tuple(case["query"])] if case["query"] else []
-    bad, _d = check_collection(boxes, queries)
-    return [m for _c, m, _q in bad]
+    sequence = [tuple(q) for q in case["asked"]] if case.get("asked") else None
+    bad, _d = check_collection(boxes, queries, sequence)
+    return [m for _c, m, _q, _a in bad]
